@@ -615,7 +615,10 @@ pub const V3_: usize = 68;
 pub const V4_: usize = 69;
 pub const V5_: usize = 70;
 pub const V6_: usize = 71;
-pub const DER_HANDLES: usize = 72;
+pub const G_DUMMY: usize = 72;
+pub const H_DUMMY: usize = 73;
+pub const K2_DUMMY: usize = 74;
+pub const DER_HANDLES: usize = 75;
 
 use Place::{Lit, RenameOnly, Table as Tb};
 
@@ -722,6 +725,11 @@ pub const MANIFEST: [DerInfo; DER_HANDLES] = [
     DerInfo { label: "V4", place: Tb(59), import_refs: &[P15_], reach_refs: &[P15_] },
     DerInfo { label: "V5", place: Tb(60), import_refs: &[P16_, P17_], reach_refs: &[P16_, P17_] },
     DerInfo { label: "V6", place: Tb(61), import_refs: &[P19_], reach_refs: &[P19_] },
+    // what the generated `#[ts(export)]` test exports for a generic type: the generics-erased
+    // instantiation
+    DerInfo { label: "G<Dummy>", place: Tb(4), import_refs: &[], reach_refs: &[] },
+    DerInfo { label: "H<Dummy>", place: Tb(5), import_refs: &[A2_, A1_], reach_refs: &[A2_, A1_] },
+    DerInfo { label: "K2<Dummy>", place: Tb(25), import_refs: &[A2_], reach_refs: &[A2_] },
 ];
 
 pub fn der_handle(h: usize) -> Handle {
@@ -799,6 +807,9 @@ pub fn der_handle(h: usize) -> Handle {
         V4_ => handle::<V4>(l),
         V5_ => handle::<V5>(l),
         V6_ => handle::<V6>(l),
+        G_DUMMY => handle::<G<ts_rs::Dummy>>(l),
+        H_DUMMY => handle::<H<ts_rs::Dummy>>(l),
+        K2_DUMMY => handle::<K2<ts_rs::Dummy>>(l),
         _ => panic!("no such derived handle {h}"),
     }
 }
